@@ -293,9 +293,13 @@ def run(ctx):
   tol = intern.Tolerant(rtol=1e-6, atol=1e-7)
   ex = intern.Exact()
   nprng = np.random.RandomState(ctx.seed)
-  for name in ('sgd', 'momentum', 'adam', 'adagrad'):
+  import optax  # pylint: disable=g-import-not-at-top
+  # (base optimizers whose update depends on the parameter VALUES - weight decay - move a parameter even under a zero gradient)
+  for name in ('sgd', 'momentum', 'adam', 'adagrad', 'adamw', 'decayed_sgd'):
     mk = {'sgd': lambda: fedjax.optimizers.sgd(0.5), 'momentum': lambda: fedjax.optimizers.sgd(0.5, momentum=0.5),
-          'adam': lambda: fedjax.optimizers.adam(0.125), 'adagrad': lambda: fedjax.optimizers.adagrad(0.5)}[name]
+          'adam': lambda: fedjax.optimizers.adam(0.125), 'adagrad': lambda: fedjax.optimizers.adagrad(0.5),
+          'adamw': lambda: fedjax.optimizers.create_optimizer_from_optax(optax.adamw(0.125, weight_decay=0.25)),
+          'decayed_sgd': lambda: fedjax.optimizers.create_optimizer_from_optax(optax.chain(optax.add_decayed_weights(0.25), optax.sgd(0.5)))}[name]
     params = {'dense': {'w': jnp.array(nprng.randn(2, 3), jnp.float32), 'b': jnp.array(nprng.randn(3), jnp.float32)},
               'frozen': {'w': jnp.array(nprng.randn(4), jnp.float32), 'b': jnp.array(nprng.randn(1), jnp.float32)}}
     # one or several ignored entries per module, a whole module ignored, nothing ignored
